@@ -36,11 +36,14 @@ LocalvarStartsAtCodeEnd(R) ==
                                                                  /\ \E y \in DOMAIN R.attrs[q][2][z][2] : R.attrs[q][2][z][2][y][1] = R.len
 
 (* why a refusal of a well-formed class file is wrong: the places where the file uses what JVMS allows *)
+(* (one atom; a file that uses several of them cannot be attributed to one)                             *)
 RefusalAtoms(g) ==
-    LET a == (IF \E q \in DOMAIN g.methods : ExcEndsAtCodeEnd(g.methods[q].raw) THEN {"refused:exception end_pc = code_length"} ELSE {})
-             \cup (IF \E q \in DOMAIN g.methods : LocalvarStartsAtCodeEnd(g.methods[q].raw) THEN {"refused:localvar_target start_pc = code_length"} ELSE {})
-             \cup (IF g.version = <<67, 65535>> THEN {"refused:class file version 67.65535"} ELSE {})
-    IN IF a = {} THEN {"refused:other"} ELSE a
+    LET a == (IF \E q \in DOMAIN g.methods : ExcEndsAtCodeEnd(g.methods[q].raw) THEN <<"exception end_pc = code_length">> ELSE <<>>)
+             \o (IF \E q \in DOMAIN g.methods : LocalvarStartsAtCodeEnd(g.methods[q].raw) THEN <<"localvar_target start_pc = code_length">> ELSE <<>>)
+             \o (IF g.version = <<67, 65535>> THEN <<"class file version 67.65535">> ELSE <<>>)
+        RECURSIVE Join(_, _)
+        Join(q, z) == IF z > Len(q) THEN "" ELSE (IF z > 1 THEN " + " ELSE "") \o q[z] \o Join(q, z + 1)
+    IN IF a = <<>> THEN {"refused:other"} ELSE {"refused:" \o Join(a, 1)}
 
 Atoms(r) ==
     LET g == r.got IN
